@@ -1630,6 +1630,13 @@ func (ev *Eval) scopeHas(e ast.Expr) bool {
 					if !ev.identKnown(id.Name) && ev.findImport(id.Name) == nil {
 						ok = false
 					}
+					// a local variable that shadows a type of the package (v := f();
+					// v.field) is not in scope here: the name resolves to the type
+					if !ev.isValueIdent(id.Name) && ev.pkg != nil {
+						if _, isType := ev.pkg.Scope().Lookup(id.Name).(*types.TypeName); isType {
+							ok = false
+						}
+					}
 				}
 				return true
 			})
